@@ -216,6 +216,15 @@ def check(ix, rep):
     dsum = dense_summaries(ix, rep, mons)
     for label, sums in dsum.items():
         laws(rep, label, sums, mons[label].visitor.module.rel, dense=True)
+    # a law relates two formulas monitored by the same machinery: both sides step every operator once per update (a short-circuit on one connective
+    # and not on its expansion breaks `p -> q` = `not p or q`), and a scan starts from its own initial value (scratch attributes of the dense
+    # offline visitor are written before they are read within one visit: `not once P` = `historically not P` also when P contains a once)
+    from sa.rules import step as _step, pure as _pure
+    for m_ in M.standard_monitors(ix):
+        if m_.kind == 'discrete-online':
+            _step.check_step(ix, rep, m_)
+        if m_.kind == 'dense-offline':
+            _pure.pure_handlers(ix, rep, m_)
     explanation = (
         'Duality on the semantic summaries. For the pairs once/historically and eventually/always in all four monitors the operator summary of '
         'the second partner (scan direction, initial state, step; window of offsets with its fill values) must equal the dual image -- min<->max, '
